@@ -57,6 +57,8 @@ def _worker(job: tuple) -> dict:
         c = REGISTRY.contracts.get(key) or REGISTRY.lemmas.get(key)
         obs = eng.verify(c)
         rows = []
+        from pyvc.solve import reset_budget
+        reset_budget(6 if tier == "quick" else 20)
         for ob in obs:
             discharge(ob, second_opinion=(tier == "thorough" and os.environ.get("PYVC_SECOND", "1") == "1"))
         refuted = [o for o in obs if o.status == "refuted" and o.kind != "cover"]
